@@ -1,4 +1,5 @@
 import LSProofs.TextSpec
+import LSProofs.LoopSpec
 import LSProofs.Props.C05
 /-!
 # C18 — a panicking callback leaves valid strings and no garbage behind
@@ -41,6 +42,23 @@ theorem extend_panic (rf : Refuse) (w : World) (h hint : Nat) (items : List (Opt
     ∀ h', h' ≠ h → (step rf w (.extendChars h hint items)).1.text h' = w.text h' :=
   let p := step_post rf hw (.extendChars h hint items) hv
   ⟨p.1, p.2.1, fun h' hne => (p.2.2 h' hne).2⟩
+
+/-- `extend` whose iterator panics at its k-th `next()`: the target holds the old text plus the
+items yielded before the panic — exactly what `String::extend` leaves -/
+theorem extend_panic_text (rf : Refuse) (w : World) (h : Nat) (t : Bytes) (items : List (Option Bytes)) (hw : Wf w)
+    (ht : w.text h = some t) (hv : ∀ s, some s ∈ items → Valid s) (hp : panics items = true) :
+    ((step rf w (.extendStrs h items)).2 = .panicCb ∧
+      (step rf w (.extendStrs h items)).1.text h = some (t ++ (consumed items).flatten)) ∨
+    ((step rf w (.extendStrs h items)).2 = .panicAlloc ∧
+      ∃ k, k < (consumed items).length ∧
+        (step rf w (.extendStrs h items)).1.text h = some (t ++ ((consumed items).take k).flatten)) := by
+  have := extendStrs_refines (rf := rf) hw ht items hv
+  rw [hp] at this; exact this
+
+/-- the kept-so-far text of a panicking `retain` is `String::retain`'s (character-level filter
+that stops at the panic) -/
+theorem retain_panic_is_string_retain (t : Bytes) (hv : Valid t) (answers : List (Option Bool)) :
+    retainScan t.length t answers [] = Spec.retain t answers := retain_is_string_retain t hv answers
 
 /-- `collect` whose iterator panics (or whose push fails): the accumulator is released — the
 destination stays empty, and since the world is well-formed no block is left without an owner
